@@ -25,6 +25,13 @@ def owner(i, nworkers):
     return FUNCS.index(func_of(i)) % nworkers
 
 
+def shard(case):
+    """Work is sharded by Numba specialisation class (op, dtype of the first raster, reducer) so
+    that each specialisation is compiled in exactly one worker while every op is spread over
+    several workers (JIT, not execution, dominates the cost of a run)."""
+    return "%s|%s|%s" % (case["op"], case["rasters"][0]["data"].dtype, case["params"].get("func", ""))
+
+
 def gen_dask_config(rng):
     cfg = {}
     r = rng.random()
@@ -51,7 +58,13 @@ def gen_case(st, i, tier="quick", op=None, max_dim=None):
     sweep = tier == "thorough" and rng.random() < 0.25
     if sweep:
         H, W = rng.randint(2, 5), rng.randint(2, 5)
-    dtype = rng.choice(g.ALL_DTYPES + ["f4", "f8", "f4", "f8"])
+    # every distinct (op, dtype, reducer) is one Numba compilation (~0.5 s): the quick tier keeps the
+    # dtype alphabet small (unsigned, signed, both floats), the thorough tier uses all eight
+    if tier == "quick":
+        dtype = rng.choice(["u1", "i4", "i8", "f4", "f8", "f4", "f8"])
+    else:
+        dtype = rng.choice(g.ALL_DTYPES + ["f4", "f8", "f4", "f8"])
+    band_dtypes = ["u1", "i4", "f4", "f8"] if tier == "quick" else g.ALL_DTYPES
     params = {}
     nb = NBANDS.get(op, 1)
     geo = g.georef(rng, H, W)
@@ -65,7 +78,7 @@ def gen_case(st, i, tier="quick", op=None, max_dim=None):
         dtype = rng.choice(["f4", "f8"])
         rasters = [g.raster(rng, H, W, dtype, style="smooth", geo=geo, nan_p=0.0, inf_p=0.0)]
     else:
-        rasters = [g.raster(rng, H, W, dtype if b == 0 or rng.random() < 0.6 else rng.choice(g.ALL_DTYPES),
+        rasters = [g.raster(rng, H, W, dtype if b == 0 or rng.random() < 0.6 else rng.choice(band_dtypes),
                             geo=geo, name=name) for b in range(nb)]
 
     if op == "hillshade":
@@ -80,7 +93,9 @@ def gen_case(st, i, tier="quick", op=None, max_dim=None):
             params["excludes"] = [float(rng.choice([0, 1, 3]))]
     elif op == "focal_apply":
         params = {"kernel": g.kernel_mask(rng, H, W),
-                  "func": rng.choice(["mean", "sum", "min", "max", "std", "range", "var",
+                  "func": rng.choice(["mean", "sum", "max", "std", "user_posweight", "user_posweight"]
+                                     if tier == "quick" else
+                                     ["mean", "sum", "min", "max", "std", "range", "var",
                                       "user_posweight", "user_posweight", "user_count"])}
     elif op == "focal_stats":
         allst = ["mean", "max", "min", "range", "std", "var", "sum"]
